@@ -93,9 +93,10 @@ func (w *Wrapper) Marshal(r Record, format uint8) ([]byte, error) {
 		return nil, errors.New("could not dump model, wrapped object format mismatch")
 	}
 
-	data := make([]byte, len(w.Data)+1)
-	data[0] = w.Format
-	copy(data[1:], w.Data)
+	formatID := varint.Pack8(w.Format)
+	data := make([]byte, len(formatID)+len(w.Data))
+	copy(data, formatID)
+	copy(data[len(formatID):], w.Data)
 
 	return data, nil
 }
